@@ -34,7 +34,10 @@ def sessions(ctx):
             yield from sessbase.model_sessions(ctx, rep, cfg, 'message / non-message lines and end of input at every point',
                                                ctx.pick(600, 5000), init={'show': show, 'hasf': False, 'hasb': False})
         for k in range(ctx.pick(120, 1200)):
-            g = gen.SessionGen(ctx.seed * 86028121 + k, nconn=(1, 3), nmsg=(10, 40), junk=0.35, core=True, unresolved=0.08)
+            # every third session: all shipped interfaces and messages by which a client names itself (titles, application ids -
+            # empty ones included), which the tool treats specially after decoding
+            g = gen.SessionGen(ctx.seed * 86028121 + k, nconn=(1, 3), nmsg=(10, 40), junk=0.35, core=(True if k % 3 else None), unresolved=0.08,
+                               titles=(0.0 if k % 3 else 0.2))
             s = g.session()
             render = {'dialect': ctx.rnd.choice(['old', 'new'])}
             yield s, render, 'random-chatter'
